@@ -510,3 +510,27 @@ class ConvertHardened:
         yield "raises.iff_not_a_number_or_marked_out_of_range", iff(out.raised, lnot(ok))
         if out.returned:
             yield "ensures.value", eq(out.value, ite(t.last != 2, t.bval + HARD, t.val))
+
+
+class CanaryVersionSwapped(VersionParse):
+    """must FAIL: spec table with ypub / zpub swapped"""
+    props = ("C07", "C16")
+
+    def post(self, c, I, out):
+        R = repo()
+        if out.returned:
+            o = c.deref(out.value)
+            yield "canary.ypub_is_bip84", implies(I.v == 0x049d7cb2, o.fields.get("bip_type") is R.wu.Bip.BIP84)
+
+
+class CanaryHardenedBound(ConvertHardened):
+    """must FAIL: spec accepting a marked 2^31"""
+    props = ("C17", "C12")
+
+    def post(self, c, I, out):
+        t = I.t
+        ok = ite(t.last != 2, land(t.bok, t.bval >= 0, t.bval <= HARD), t.ok)
+        yield "canary.marked_range_inclusive", iff(out.raised, lnot(ok))
+
+
+CANARIES += [CanaryVersionSwapped(), CanaryHardenedBound()]
